@@ -375,6 +375,12 @@ pub fn decode(bytes: &[u8], focus: Focus, tier: Tier) -> CoreCase {
             2 => CoreOp::PutResult { k: d.choose(n_keys as usize) as u8, v: dec_val(&mut d, max_memory, salt) },
             3 => {
                 let ns = match focus {
+                    // the async cache measures lifetimes in whole seconds; the sync caches use
+                    // Instant, so fractions of the lifetime (late-life ages included) are exact
+                    Focus::C08 if flavour != Flavour2::Async && t_ns.is_some() => {
+                        let t = t_ns.unwrap_or(SEC);
+                        [SEC, 2 * SEC, t / 100 * 96, t / 100 * 98, t / 2, 250_000_000, 3 * SEC, t / 100 * 99][d.choose(8)]
+                    }
                     Focus::C08 => [SEC, 2 * SEC, SEC, 3 * SEC][d.choose(4)],
                     Focus::C05 | Focus::C07 => [SEC, 2 * SEC][d.choose(2)],
                     _ => {
